@@ -446,6 +446,7 @@ def exc_case(draw, directed: str | None = None):
                 st.one_of(
                     value_st(),
                     st.sampled_from(["[40001] deadlock", "('HYT00', 'timeout')", "ORA-00001", "SQLSTATE 08S01 link", "x[28000]y", "code=42P01", "[4000]", "[400011]"]),
+                    st.tuples(st.sampled_from([8180, 8187, 8192, 9000, 70000]), st.sampled_from(["SQLSTATE 40001 serialization", "[HYT00] timeout", "08S01", "error 28000", "[42P01]"])).map(lambda t: "INSERT " + "x" * t[0] + " " + t[1]),
                     st.sampled_from(["ポート ５４３２１ に接続できません", "خطأ ٤٢٠٠٠ في", "１２３４５ then 40001", "[４０００１] full-width", "é40001", "40001é", "०८S०१ link", "ＨＹＴ００ timeout 08S01"]),
                     st.sampled_from(DOC_CODES),
                 ),
